@@ -24,6 +24,15 @@ inductive Cmd where
   | plain (k : Kind) (rs : List Redir)
   /-- `{ CMD inner…; } outer…` (or a function whose body is that): `ki` is the kind of the inner command -/
   | nested (outer : List Redir) (ki : Kind) (inner : List Redir)
+  /-- the harness's `put FD B` (`wr`: one byte `arg` written through descriptor `fd`) / `get FD N` (up to `arg`
+      bytes read through `fd`): a regular built-in carrying the list `rs`, acting on an ARBITRARY descriptor -/
+  | io (wr : Bool) (fd : Fd) (arg : Nat) (rs : List Redir)
+
+/-- what `put` / `get` report -/
+inductive IoRes where
+  | wrote (ok : Bool)
+  | got (r : Option (List Nat)) (tainted : Bool)
+  deriving DecidableEq, Repr
 
 structure CmdTrace where
   tr : Trace
@@ -32,6 +41,8 @@ structure CmdTrace where
   inner : Option (World × FdTable × Trace) := none
   /-- the inner command ended in an interrupt the interactive shell recovers from at the top level -/
   innerInterrupted : Bool := false
+  /-- `put` / `get`: what the built-in reported -/
+  io : Option IoRes := none
 
 /-- does the command end in a `Divert::Interrupt` that an interactive shell recovers from at the top
     level only — a redirection error on a special built-in, a failing expansion in an operand, a usage
@@ -66,9 +77,42 @@ def runNested (w : World) (t : FdTable) (outer : List Redir) (ki : Kind) (inner 
                    runCommand (performRedirs worldOracle w t outer).w (performRedirs worldOracle w t outer).t ki inner prev),
     innerInterrupted := interrupts (performRedirs worldOracle w t outer).w (performRedirs worldOracle w t outer).t ki inner }
 
+/-- the body of `put` / `get`: a write of the one byte `arg` / a read of up to `arg` bytes through whatever open
+    file description descriptor `fd` refers to in the table the built-in sees (`OpenFileDescription::write` /
+    `read`: the offset is the description's, an appending description writes at the end of the file) -/
+def ioBody (w : World) (t : FdTable) (wr : Bool) (fd : Fd) (arg : Nat) : World × IoRes :=
+  match t.get fd with
+  | none => (w, if wr then .wrote false else .got none false)
+  | some e =>
+    if wr then
+      match w.write e.ofd [arg] with
+      | some w1 => (w1, .wrote true)
+      | none => (w, .wrote false)
+    else
+      match w.read e.ofd arg with
+      | some (w1, bs) => (w1, .got (some bs) (fileAt w (ofdAt w e.ofd).file).tainted)
+      | none => (w, .got none (fileAt w (ofdAt w e.ofd).file).tainted)
+
+def IoRes.status : IoRes → Nat
+  | .wrote true => 0
+  | .got (some _) _ => 0
+  | _ => 1
+
+/-- `put` / `get` as a command: a regular built-in (`execute_builtin`): a failing list is what it is for every
+    regular built-in (the body does not run); otherwise the body acts on the redirected table and the list is undone -/
+def runIO (w : World) (t : FdTable) (wr : Bool) (fd : Fd) (arg : Nat) (rs : List Redir) (prev : Nat := 0) : CmdTrace :=
+  if (performRedirs worldOracle w t rs).err.isSome then { tr := runCommand w t .regular rs prev } else
+  { tr := { w := (ioBody (performRedirs worldOracle w t rs).w (performRedirs worldOracle w t rs).t wr fd arg).1,
+            t := undoRedirs (performRedirs worldOracle w t rs).t (performRedirs worldOracle w t rs).saved,
+            status := some (ioBody (performRedirs worldOracle w t rs).w (performRedirs worldOracle w t rs).t wr fd arg).2.status,
+            saved := (performRedirs worldOracle w t rs).saved,
+            during := some ((performRedirs worldOracle w t rs).w, (performRedirs worldOracle w t rs).t) },
+    io := some (ioBody (performRedirs worldOracle w t rs).w (performRedirs worldOracle w t rs).t wr fd arg).2 }
+
 def runCmd (w : World) (t : FdTable) (prev : Nat) : Cmd → CmdTrace
   | .plain k rs => { tr := runCommand w t k rs prev }
   | .nested outer ki inner => runNested w t outer ki inner prev
+  | .io wr fd arg rs => runIO w t wr fd arg rs prev
 
 /-- `runScript` over `Cmd`s (`runScript2_plain`, NestedTheorems.lean: on plain commands it *is* `runScript`) -/
 def runScript2 (w : World) (t : FdTable) (prev : Nat := 0) : List Cmd → List (FdTable × CmdTrace)
@@ -86,6 +130,10 @@ def runScript2 (w : World) (t : FdTable) (prev : Nat := 0) : List Cmd → List (
 def specVerdictCmd (before : FdTable) (c : Cmd) (ct : CmdTrace) : String :=
   match c with
   | .plain k rs => specVerdict before k rs ct.tr
+  -- `put` / `get`: a failing list as for every regular built-in; otherwise the table is given back
+  | .io _ _ _ rs =>
+    if ct.io.isNone then specVerdict before .regular rs ct.tr
+    else if sameTable before ct.tr.t then "ok" else "FAIL:table-not-restored"
   | .nested outer ki inner =>
     match ct.inner with
     | none => specVerdict before .brace outer ct.tr
